@@ -518,7 +518,17 @@ private:
         const auto& [t, element_location] =
             get_level_header_element(c, level_name, name);
 
-        // strict: SBE requires underlying type to be unsigned integer
+        // strict: SBE requires underlying type to be unsigned integer, here
+        // only non-integer types are rejected because generated code doesn't
+        // compile for them
+        if(!is_integral_type(t.primitive_type))
+        {
+            throw_error(
+                "{}: {} header element `{}` must have integer type",
+                element_location,
+                level_name,
+                name);
+        }
 
         if(t.length != 1)
         {
